@@ -8,8 +8,8 @@ def replay(violation, inputs, workdir, repo):
     here = os.path.dirname(os.path.abspath(__file__))
     os.makedirs(workdir, exist_ok=True)
     bindir = "/repo/_build/smpi_script/bin"
-    # serialize / unserialize obligations: replay_pack.c (MPI_Pack of 2 copies of small layouts); lb/ub ones: replay_mpi.c
-    prog = "replay_pack" if "serialize" in violation.get("label", "") else "replay_mpi"
+    # serialize / unserialize obligations: native_pack.c (MPI_Pack of 2 copies of small layouts); lb/ub ones: replay_mpi.c
+    prog = "native_pack" if "serialize" in violation.get("label", "") else "replay_mpi"
     exe = os.path.join(workdir, prog)
     p = subprocess.run([bindir + "/smpicc", os.path.join(here, prog + ".c"), "-o", exe], capture_output=True, text=True)
     if p.returncode != 0:
